@@ -341,7 +341,7 @@ inline Program gen_program(vrf::Rng& rng, int fam, int mut, uint32_t allowed, in
     int nt = static_cast<int>(rng.range(2, max_threads));
     uint32_t id = 1;
     bool allow_store = rng.chance(25);
-    static const int durs[] = {0, 20, 200, 5000};
+    static const int durs[] = {0, 20, 200, 5000, -50};  // negative: a duration below zero / a time point in the past
     for (int t = 0; t < nt; t++) {
         std::vector<POp> sc;
         int no = static_cast<int>(rng.range(2, max_ops));
@@ -357,7 +357,7 @@ inline Program gen_program(vrf::Rng& rng, int fam, int mut, uint32_t allowed, in
                 }
                 break;
             }
-            sc.push_back(POp{op, id++, static_cast<int>(rng.below(4)), durs[rng.below(4)], rng.chance(25), rng.chance(6)});
+            sc.push_back(POp{op, id++, static_cast<int>(rng.below(4)), durs[rng.below(5)], rng.chance(25), rng.chance(6)});
             if (id >= 28) break;
         }
         P.scripts.push_back(std::move(sc));
